@@ -34,7 +34,7 @@ class C14(GProp):
     rule = ('seeded random captures text(w) / spanned(w) with w from the C06/C07 family including nullable ones (maybe, repeat 0.., '
             'empty, cond false, seq_count), nested in sequences so that tokens were consumed before the capture and follow after it, '
             'on random texts with filtered whitespace before, between and after the consumed tokens (incl. tabs, line breaks, '
-            'multi-byte, wide and zero-display-width tokens as the first captured token); the captured span / byte range is compared with [start of first consumed token, end of last] '
+            'multi-byte, wide and zero-display-width tokens as the first captured token; lexers built filter-first then metrics on texts starting with tabs / line breaks); the captured span / byte range is compared with [start of first consumed token, end of last] '
             'computed from the python token list, or required to be empty when nothing was consumed; non-trivial = a capture whose '
             'wrapped parser consumed nothing, or consumed tokens separated by filtered tokens; distinct by case')
 
@@ -61,8 +61,15 @@ class C14(GProp):
                 g = r.choice([['both', ['one', 'A'], cap], ['both', ['seq', 'B', 'A'], ['both', cap, ['maybe', ['one', 'B']]]],
                               ['both', ['one', 'A'], ['sub', cap]], ['repeat', 0, 3, ['both', ['one', 'Comma'], cap]]])
                 t = spangen.random_text(r, ['a', 'a', 'b', 'comma', 'sp', 'sp', 'TAB', 'LF', 'z3', 'z3', 'z2', 'e2', 'w3'], 10)
+            order = 'mf'
+            if i % 7 == 6:
+                # the filter installed BEFORE the metrics (the builders re-measure what the eager filter scan already
+                # buffered), on texts that start with filtered tokens whose width depends on the metrics
+                order = 'fm'
+                t = r.choice([['TAB'], ['sp', 'TAB'], ['LF'], ['TAB', 'LF', 'TAB'], ['CR']]) + t
             n += 1
-            out.append(parsegen.parse_case('c%d' % n, t, g, le=r.choice(['lf', 'crlf']), tab=1 + r.below(8), sink=r.below(2)))
+            out.append(parsegen.parse_case('c%d' % n, t, g, le=r.choice(['lf', 'crlf', 'cr']) if order == 'fm' else r.choice(['lf', 'crlf']),
+                                           tab=1 + r.below(8), sink=r.below(2), order=order))
         return out
 
     def nontrivial(self, ct, it):
